@@ -125,6 +125,8 @@ def o142_list(ctx, q, m, fn):
     src_ = ev.arg(0) if ev.arg(0) is not None else ev.kwargs.get("input_map")
     st_ = to_term(src_) if src_ is not None else const(None)
     ri = {n.key() for n in tm.walk(rt) if n.op == "call" and n.args[0] == "enum_index"}
+    if not ri and getattr(rot, "indexed_by", None) is not None:  # rotations[i] of a batch of rotations: the index is kept next to the value
+        ri = {n.key() for n in tm.walk(to_term(rot.indexed_by)) if n.op == "call" and n.args[0] == "enum_index"}
     ti = {n.key() for n in tm.walk(st_) if n.op == "call" and n.args[0] == "enum_index"}
     ctx.count(1)
     if not tm.contains(rt, lambda n: n == particle_R()) or not tm.has_sym(st_, "templates") or not ri or ri != ti:
@@ -175,6 +177,8 @@ def o142(ctx):
         ctx.finding(q, ev.node, "the template must be rotated by the particle's own zxz(phi,theta,psi) orientation "
                     "(Motl.get_rotations)", ev.node, m, rotation=tm.show(rt)[:160])
     rot_idx = {n.key(): n for n in tm.walk(rt) if n.op == "call" and n.args[0] == "enum_index"}
+    if not rot_idx and getattr(rot, "indexed_by", None) is not None:  # rotations[i] of a batch of rotations: the index is kept next to the value
+        rot_idx = {n.key(): n for n in tm.walk(to_term(rot.indexed_by)) if n.op == "call" and n.args[0] == "enum_index"}
     # window centre: complete position minus 1 (1-based -> 0-based), of the same particle
     wc = wins[0].arg(0)
     a = wc if isinstance(wc, Arr) else None
